@@ -13,6 +13,7 @@
 //	R4  rv.MapKeys() (reflect.Value) -> simrt.OrderValues(rv.MapKeys())
 //	R5  sync.Map.Range, time.Now/Sleep/After/..., math/rand, os.Getenv: counted only
 //	R6  go f(x) -> simrt.Spawn(func() { f(x) }, site): goroutines started by plush become tasks of the scheduler
+//	R7  p.Get() / p.Put(x) on sync.Pool -> simrt.PoolGet / PoolPut: what Get returns is the simulator's seeded choice
 //	R1c chan send / receive / close / range ch / select -> simrt.ChanSend / ChanRecv / ChanClose / Select
 //
 // Exit status: 0 ok, 2 anything else (never 1: 1 is reserved for violations).
@@ -531,6 +532,9 @@ func rewriteFile(p *packages.Package, f *ast.File, simrtPath string) bool {
 				if rp == "sync" && blockingOps[rn+"."+fn.Name()] != "" {
 					return true // R1b
 				}
+				if rp == "sync" && rn == "Pool" && (fn.Name() == "Get" || fn.Name() == "Put") {
+					return true // R7
+				}
 				if fn.Name() == "NewCond" || fn.Name() == "OnceFunc" || fn.Name() == "OnceValue" || fn.Name() == "OnceValues" {
 					return true
 				}
@@ -644,6 +648,20 @@ func rewriteFile(p *packages.Package, f *ast.File, simrtPath string) bool {
 				s := add("R1", fset, n.Pos(), rn+"."+fn.Name())
 				n.Fun = &ast.SelectorExpr{X: ast.NewIdent("simrt"), Sel: ast.NewIdent(lockOps[fn.Name()])}
 				n.Args = []ast.Expr{recv, lit(s)}
+				changed = true
+			case rp == "sync" && rn == "Pool" && (fn.Name() == "Get" || fn.Name() == "Put"):
+				se, ok := ast.Unparen(n.Fun).(*ast.SelectorExpr)
+				if !ok {
+					return true
+				}
+				recv := lockReceiver(info, se)
+				if recv == nil {
+					add("R5", fset, n.Pos(), "sync.Pool op with unresolvable receiver")
+					return true
+				}
+				s := add("R7", fset, n.Pos(), "Pool."+fn.Name())
+				n.Fun = &ast.SelectorExpr{X: ast.NewIdent("simrt"), Sel: ast.NewIdent("Pool" + fn.Name())}
+				n.Args = append(append([]ast.Expr{recv}, n.Args...), lit(s))
 				changed = true
 			case rp == "sync" && blockingOps[rn+"."+fn.Name()] != "":
 				se, ok := ast.Unparen(n.Fun).(*ast.SelectorExpr)
